@@ -257,8 +257,8 @@ type Q struct {
 	SMin                  int
 
 	// cached by prep(): the join levels of this operator
-	prepared     bool
-	lvl, lvlMust string
+	prepared                        bool
+	lvl, lvlMust, lvlShould, lvlNot string
 }
 
 // prep caches the nesting level each operator joins at (a pure function of the tree).
@@ -277,16 +277,8 @@ func (q *Q) prep() {
 		q.lvl = commonPath(q.leafPaths(nil))
 	case "bool":
 		q.lvlMust = commonPath(pathsOf(q.Must))
-		hasMust := len(q.Must) > 0
-		min := q.effMin()
-		ps := pathsOf(q.Must, q.MustNot)
-		if min > 0 {
-			pathsInto(ps, q.Should)
-		}
-		if !hasMust && min == 0 {
-			ps[""] = true // only must-not: the candidates are all parents
-		}
-		q.lvl = commonPath(ps)
+		q.lvlShould = commonPath(pathsOf(q.Should))
+		q.lvlNot = commonPath(pathsOf(q.MustNot))
 	}
 	q.prepared = true
 }
@@ -420,11 +412,13 @@ func (q *Q) ToBleve() query.Query {
 // set is non-empty. A term matches at the elements carrying the value. A conjunction joins
 // its conjuncts at the deepest nesting level all its fields share (J): an element at level J
 // matches when every conjunct matches at it, below it or above it. That is the part the
-// statement fixes. For the counting operators (disjunction with min >= 2, boolean) the
-// statement fixes the meaning only when J is the root ("combined per parent"); when all their
-// clauses live on one array (J != root) both an element-level and a parent-level reading are
-// accepted: each such operator is a binary choice, the query is evaluated under every
-// combination of choices, and the answer is three-valued.
+// statement fixes. For the counting operators (disjunction with min >= 2, the parts of a
+// boolean) the statement fixes the meaning only when the clauses involved address different
+// paths ("combined per parent"); when they all live on one array (J != root) both an
+// element-level and a parent-level reading are accepted: each such operator is a binary
+// choice, the query is evaluated under every combination of choices, and the answer is
+// three-valued. A boolean is combined in three steps whose levels can only move towards the
+// root: its must clauses, then must + counted should, then the exclusion by must-not.
 
 type Tri int
 
@@ -439,15 +433,24 @@ func (t Tri) String() string { return [...]string{"no", "yes", "either"}[t] }
 type evaluator struct {
 	t    *tree
 	flat bool
-	bits uint
-	next uint
+	// the reading: choices[i] = true takes the parent-level reading at the i-th ambiguous
+	// operator met; used = how many were met in this evaluation
+	choices [16]bool
+	used    int
 }
 
-// choice returns true for the parent-level reading of the next ambiguous operator.
-func (e *evaluator) choice() bool {
-	b := e.bits>>e.next&1 == 1
-	e.next++
-	return b
+// pick: the level an ambiguous counting operator works at — j, or the root when j is the
+// root already / the mapping is flat / this reading says parent-level.
+func (e *evaluator) pick(j string) string {
+	if e.flat || j == "" {
+		return ""
+	}
+	c := e.choices[e.used]
+	e.used++
+	if c {
+		return ""
+	}
+	return j
 }
 
 func (e *evaluator) level(j string) []*node {
@@ -474,16 +477,27 @@ func (e *evaluator) evalAll(qs []*Q) [][]*node {
 	return out
 }
 
-// ambiguous level: J, or the root when the operator is ambiguous and this reading says so.
-func (e *evaluator) pick(j string) string {
-	if e.flat || j == "" {
-		return ""
+func allHit(ms [][]*node, a *node) bool {
+	for _, m := range ms {
+		if !hit(m, a) {
+			return false
+		}
 	}
-	if e.choice() {
-		return ""
-	}
-	return j
+	return true
 }
+
+func countHit(ms [][]*node, a *node) int {
+	c := 0
+	for _, m := range ms {
+		if hit(m, a) {
+			c++
+		}
+	}
+	return c
+}
+
+// meet of two nesting paths: the deepest level that is an ancestor-or-self of both
+func meet(a, b string) string { return commonPath(map[string]bool{a: true, b: true}) }
 
 func (e *evaluator) eval(q *Q) []*node {
 	if !q.prepared {
@@ -492,7 +506,7 @@ func (e *evaluator) eval(q *Q) []*node {
 	switch q.Kind {
 	case "term":
 		var out []*node
-		for _, n := range e.t.nodes {
+		for _, n := range e.t.byPath[pathOf(q.Field)] {
 			if n.fields[q.Field] == q.Val {
 				out = append(out, n)
 			}
@@ -504,14 +518,7 @@ func (e *evaluator) eval(q *Q) []*node {
 		ms := e.evalAll(q.Subs)
 		var out []*node
 		for _, a := range e.level(q.lvl) {
-			ok := true
-			for _, m := range ms {
-				if !hit(m, a) {
-					ok = false
-					break
-				}
-			}
-			if ok {
+			if allHit(ms, a) {
 				out = append(out, a)
 			}
 		}
@@ -523,13 +530,7 @@ func (e *evaluator) eval(q *Q) []*node {
 		}
 		var out []*node
 		for _, a := range e.level(e.pick(q.lvl)) {
-			c := 0
-			for _, m := range ms {
-				if hit(m, a) {
-					c++
-				}
-			}
-			if c >= q.Min {
+			if countHit(ms, a) >= q.Min {
 				out = append(out, a)
 			}
 		}
@@ -538,59 +539,54 @@ func (e *evaluator) eval(q *Q) []*node {
 		must := e.evalAll(q.Must)
 		should := e.evalAll(q.Should)
 		not := e.evalAll(q.MustNot)
-		// the must part is a conjunction built by the boolean query: same-array must clauses
-		// are left to either reading
-		var mustM []*node
-		switch {
-		case len(must) == 1:
-			mustM = must[0]
-		case len(must) > 1:
-			for _, a := range e.level(e.pick(q.lvlMust)) {
-				ok := true
-				for _, m := range must {
-					if !hit(m, a) {
-						ok = false
-						break
-					}
-				}
-				if ok {
-					mustM = append(mustM, a)
-				}
-			}
-		}
 		hasMust := len(must) > 0
 		min := q.effMin()
-		// pass-through forms: nothing is counted or excluded
-		if len(not) == 0 {
-			if hasMust && min == 0 {
-				return mustM
-			}
-			if !hasMust && min == 1 {
-				return union(should)
+		// step 1: the must clauses (a conjunction built by the boolean query)
+		var pos []*node
+		lv := ""
+		switch {
+		case len(must) == 1:
+			pos, lv = must[0], q.lvlMust
+		case len(must) > 1:
+			lv = e.pick(q.lvlMust)
+			for _, a := range e.level(lv) {
+				if allHit(must, a) {
+					pos = append(pos, a)
+				}
 			}
 		}
+		// step 2: counted should clauses
+		switch {
+		case !hasMust && min == 0: // only must-not: taken from all parents
+			pos, lv = e.level(""), ""
+		case !hasMust && min == 1:
+			pos, lv = union(should), q.lvlShould
+		case min > 0:
+			if hasMust {
+				lv = meet(lv, q.lvlShould)
+			} else {
+				lv = q.lvlShould
+			}
+			lv = e.pick(lv)
+			var out []*node
+			for _, a := range e.level(lv) {
+				if hasMust && !hit(pos, a) {
+					continue
+				}
+				if countHit(should, a) >= min {
+					out = append(out, a)
+				}
+			}
+			pos = out
+		}
+		if len(not) == 0 {
+			return pos
+		}
+		// step 3: exclusion
+		lv = e.pick(meet(lv, q.lvlNot))
 		var out []*node
-		for _, a := range e.level(e.pick(q.lvl)) {
-			if hasMust && !hit(mustM, a) {
-				continue
-			}
-			c := 0
-			for _, m := range should {
-				if hit(m, a) {
-					c++
-				}
-			}
-			if c < min {
-				continue
-			}
-			excluded := false
-			for _, m := range not {
-				if hit(m, a) {
-					excluded = true
-					break
-				}
-			}
-			if !excluded {
+		for _, a := range e.level(lv) {
+			if hit(pos, a) && countHit(not, a) == 0 {
 				out = append(out, a)
 			}
 		}
@@ -624,13 +620,23 @@ func union(ms [][]*node) []*node {
 	return out
 }
 
-// Expect is the three-valued reference answer for one parent.
+// Expect is the three-valued reference answer for one parent: the query is evaluated under
+// every reading (the decision tree of the choices is walked depth first).
 func Expect(q *Q, t *tree, nested bool) Tri {
 	e := &evaluator{t: t, flat: !nested}
 	first := len(e.eval(q)) > 0
-	n := e.next
-	for bits := uint(1); bits < 1<<n; bits++ {
-		e.bits, e.next = bits, 0
+	for {
+		// next reading: flip the last choice that was still "element-level", drop what follows
+		i := e.used - 1
+		for i >= 0 && e.choices[i] {
+			e.choices[i] = false
+			i--
+		}
+		if i < 0 {
+			break
+		}
+		e.choices[i] = true
+		e.used = 0
 		if (len(e.eval(q)) > 0) != first {
 			return Either
 		}
@@ -657,6 +663,13 @@ const (
 	classMustNot   = "bool:must-not@different-nesting-path"
 	classShouldMin = "bool:must+should-min@different-nesting-path"
 	classDisjMin   = "disj:min>=2@different-nesting-paths"
+	// not a nesting matter (both mappings): with score "none" a should disjunction of >= 2 term
+	// clauses and min 1 is replaced by an optimised searcher that reports Min() = 0, and the
+	// boolean searcher then treats the should part as optional
+	classShouldOpt = "bool:must+should-min1(>=2 term clauses)@score=none"
+	// a must-not-only boolean takes its candidates from match-all, which enumerates elements
+	// as well; when no field of the query is nested the collector does not fold them
+	classElemHits = "bool:must-not-only@top-level-fields-only:elements-returned-as-hits"
 )
 
 type shapeHit struct {
@@ -664,7 +677,16 @@ type shapeHit struct {
 	extra bool // direction of the deviation at the root: true = extra hits, false = missing hits
 }
 
-func knownShapes(q *Q) []shapeHit {
+func allTerms(qs []*Q) bool {
+	for _, q := range qs {
+		if q.Kind != "term" {
+			return false
+		}
+	}
+	return true
+}
+
+func knownShapes(q *Q, nested bool, score string) []shapeHit {
 	var out []shapeHit
 	var walk func(q *Q, neg bool)
 	walk = func(q *Q, neg bool) {
@@ -674,7 +696,7 @@ func knownShapes(q *Q) []shapeHit {
 				walk(s, neg)
 			}
 		case "disj":
-			if q.Min >= 2 && len(q.leafPaths(nil)) >= 2 {
+			if nested && q.Min >= 2 && len(q.leafPaths(nil)) >= 2 {
 				out = append(out, shapeHit{classDisjMin, neg})
 			}
 			for _, s := range q.Subs {
@@ -682,24 +704,25 @@ func knownShapes(q *Q) []shapeHit {
 			}
 		case "bool":
 			hasMust := len(q.Must) > 0
-			if len(q.MustNot) > 0 {
+			if nested && len(q.MustNot) > 0 {
 				ps := pathsOf(q.Must, q.MustNot)
 				if !hasMust || q.SMin >= 1 {
 					pathsInto(ps, q.Should) // shoulds that decide the match
 				}
-				if !hasMust && len(q.Should) == 0 {
-					ps[""] = true // must-not alone is taken from all parents
-				}
-				if len(ps) >= 2 {
+				// must-not alone is taken from match-all, which spans every path
+				if len(ps) >= 2 || (!hasMust && len(q.Should) == 0) {
 					out = append(out, shapeHit{classMustNot, !neg})
 				}
 			}
-			if hasMust && len(q.Should) > 0 && q.SMin >= 1 && len(pathsOf(q.Must, q.Should)) >= 2 {
+			if nested && hasMust && len(q.Should) > 0 && q.SMin >= 1 && len(pathsOf(q.Must, q.Should)) >= 2 {
 				out = append(out, shapeHit{classShouldMin, neg})
 			}
-			if !hasMust && q.SMin >= 2 && len(pathsOf(q.Should)) >= 2 {
+			if nested && !hasMust && q.SMin >= 2 && len(pathsOf(q.Should)) >= 2 {
 				// a should-only boolean is executed as its should disjunction
 				out = append(out, shapeHit{classDisjMin, neg})
+			}
+			if score == "none" && hasMust && len(q.Should) >= 2 && q.SMin == 1 && allTerms(q.Should) {
+				out = append(out, shapeHit{classShouldOpt, !neg})
 			}
 			for _, s := range q.Must {
 				walk(s, neg)
@@ -714,6 +737,29 @@ func knownShapes(q *Q) []shapeHit {
 	}
 	walk(q, false)
 	return out
+}
+
+// elementHitsShape: the query contains a must-not-only boolean and addresses no nested field.
+func elementHitsShape(q *Q) bool {
+	for p := range q.leafPaths(nil) {
+		if p != "" {
+			return false
+		}
+	}
+	found := false
+	var walk func(q *Q)
+	walk = func(q *Q) {
+		if q.Kind == "bool" && len(q.MustNot) > 0 && len(q.Must) == 0 && len(q.Should) == 0 {
+			found = true
+		}
+		for _, l := range [][]*Q{q.Subs, q.Must, q.Should, q.MustNot} {
+			for _, s := range l {
+				walk(s)
+			}
+		}
+	}
+	walk(q)
+	return found
 }
 
 // shapeSig abstracts a query to operator kinds and nesting paths (values and clause order
@@ -767,12 +813,10 @@ func shapeSig(q *Q) string {
 
 // classify names a per-parent mismatch: a known shape whose direction fits, else a class
 // built from the mapping, the direction and the abstract shape.
-func classify(q *Q, nested bool, extra bool) string {
-	if nested {
-		for _, h := range knownShapes(q) {
-			if h.extra == extra {
-				return h.class
-			}
+func classify(q *Q, nested bool, score string, extra bool) string {
+	for _, h := range knownShapes(q, nested, score) {
+		if h.extra == extra {
+			return h.class
 		}
 	}
 	dir := "missing"
